@@ -20,7 +20,8 @@ sys.path.insert(0, os.path.join(ROOT, "lib"))
 HARNESS = os.path.join(ROOT, "harness")
 OUT = os.path.join(ROOT, "out")
 REPLAYS = os.path.join(OUT, "replays")
-EVID = os.path.join(ROOT, "evidence")
+# trials against deliberately changed trees (lib/seedtest.py, lib/refactortest.py) redirect their evidence
+EVID = os.environ.get("VERIF_EVIDENCE_DIR") or os.path.join(ROOT, "evidence")
 TARGET = os.path.join(ROOT, "target")
 ENV = dict(os.environ, CARGO_NET_OFFLINE="true", CARGO_TERM_COLOR="never")
 DEFAULT_SEED = 20260926
@@ -238,8 +239,13 @@ def engine_a(prop, tier, seed):
             log(f"  {f['message']}")
             violation = (path, f["message"])
             break
+    deep_cov = {}
+    if tier == "thorough" and not violation:
+        deep_cov, violation = deep_tier(prop, seed)
     wall = time.time() - t0
     cov = merge_reports(prop, reports)
+    cov.update(deep_cov)
+    cov["evaluations"] += deep_cov.get("fuzz_executions", 0) + deep_cov.get("miri_cases", 0)
     cov["regression_cases_replayed"] = nreg
     write_evidence(prop, tier, seed, cov, wall, 1 if violation else 0, [
         "the reference model (written from the crate documentation) is the specification",
@@ -251,6 +257,32 @@ def engine_a(prop, tier, seed):
         sys.exit(1)
     log(f"OK property={prop} tier={tier} evaluations={cov['evaluations']} distinct_nontrivial={cov['distinct_nontrivial']} wall={wall:.1f}s")
     sys.exit(0)
+
+
+def deep_tier(prop, seed):
+    """Thorough-tier extras: libFuzzer/ASan campaign and Miri sub-space, where defined for the property."""
+    import deep
+    cov = {}
+    violation = None
+    if prop in deep.FUZZ_PROPS:
+        c, viol, inc = deep.fuzz_campaign(prop, seed)
+        cov.update(c)
+        if inc:
+            log("NOTE fuzzing part inconclusive: " + inc)
+            cov["fuzz_note"] = inc[:500]
+        if viol:
+            log(f"failing case (libFuzzer): {viol[1]}")
+            return cov, viol
+    if prop in deep.MIRI_PROPS:
+        c, viol, inc = deep.miri_subspace(prop)
+        cov.update(c)
+        if inc:
+            log("NOTE Miri part inconclusive: " + inc)
+            cov["miri_note"] = inc[:500]
+        if viol:
+            log(f"failing case (Miri): {viol[1]}")
+            return cov, viol
+    return cov, violation
 
 
 def merge_reports(prop, reports):
